@@ -812,6 +812,18 @@ class StateNode(Generic[TContext, TEvent]):
                 f"'{type(initial).__name__}'. Expected the name of a child "
                 f"state as a string."
             )
+        # 🕰️ A history pseudo-state is never a valid initial child: entering
+        #    it by default descent left the pseudo-state itself "active" and
+        #    no real child of the compound state.
+        children = config.get("states")
+        if isinstance(initial, str) and isinstance(children, dict):
+            named = children.get(initial)
+            if isinstance(named, dict) and named.get("type") == "history":
+                raise InvalidConfigError(
+                    f"State '{self.id}' names the history pseudo-state "
+                    f"'{initial}' as its 'initial' child. 'initial' must "
+                    f"name a real child state."
+                )
         if self.type != "compound" or initial:
             return initial
 
